@@ -554,37 +554,37 @@ def run(ctx):
             'where it addresses the per-worker free-list table')
     for fl in flavours(ctx):
         ctx.unit = fl
-        rule1_who(ctx, fl)
+        ctx.attempt(rule1_who, ctx, fl)
         stops = ('myth_queue_push', 'myth_queue_pop', DESC_FREE, STACK_FREE, 'myth_get_current_env_noinline',
                  'myth_tls_tree_fini') + lib.SPIN_STOPS
         v = ctx.view(NATIVE, roots=['myth_entry_point_1', 'myth_entry_point_2', 'myth_detach_body'], stops=stops, flavour=fl)
-        rule2_order(ctx, v)
-        rule3_env(ctx, fl)
+        ctx.attempt(rule2_order, ctx, v)
+        ctx.attempt(rule3_env, ctx, fl)
         v2 = ctx.view(NATIVE, roots=['get_new_myth_thread_struct_stack', STACK_FREE, 'myth_flmalloc', 'myth_flfree'],
                       stops=('myth_freelist_pop', 'myth_freelist_push', 'myth_mmap'), flavour=fl)
-        rule4_affine(ctx, v2)
+        ctx.attempt(rule4_affine, ctx, v2)
         # lifetime-deciding fields of a recycled record are re-initialised at creation (shared with C01.3)
         from . import c01
         v3 = ctx.view(NATIVE, roots=['myth_create_ex_body'],
                       stops=('myth_queue_push', 'myth_queue_pop', 'get_new_myth_thread_struct_desc',
                              'get_new_myth_thread_struct_stack', 'myth_init_ex_body') + lib.SPIN_STOPS, flavour=fl)
-        c01.rule3_publish(ctx, v3, rule='C12.6', only=[TH + 'detached', TH + 'status', TH + 'join_thread', TH + 'stack'])
+        ctx.attempt(c01.rule3_publish, ctx, v3, rule='C12.6', only=[TH + 'detached', TH + 'status', TH + 'join_thread', TH + 'stack'])
         v4 = ctx.view(NATIVE, roots=['myth_create_ex_body'],
                       stops=('myth_queue_push', 'myth_queue_pop', 'get_new_myth_thread_struct_desc', 'get_new_myth_thread_struct_stack',
                              'myth_init_ex_body', 'myth_make_context_empty', 'myth_make_context_voidcall') + lib.SPIN_STOPS, flavour=fl)
-        rule4_custom_data(ctx, v4)
+        ctx.attempt(rule4_custom_data, ctx, v4)
         # "each record is released at most once": the reaping entry points pass at most one release per call (shared with C13.1)
         from . import c13
         v5 = ctx.view(NATIVE, roots=['myth_join_body', 'myth_tryjoin_body', 'myth_detach_body', 'myth_timedjoin_body'],
                       stops=('myth_queue_push', 'myth_queue_pop', DESC_FREE, 'myth_get_current_env_noinline', 'myth_tryjoin_body',
                              'myth_timespec_gt', 'hr_gettime', 'myth_yield_ex_body') + lib.SPIN_STOPS, flavour=fl)
-        c13.rule1_once(ctx, v5, rule='C12.7')
+        ctx.attempt(c13.rule1_once, ctx, v5, rule='C12.7')
         with ctx.shared({'C13.5': 'C12.8'}, floor=6,
                         doc='who releases the record at exit (shared with C13.5): both exit callbacks decide on the detached flag of the '
                             'thread that finished - detached: released there, joinable: kept for the joiner - and release at most once'):
-            c13.rule5_finisher(ctx, fl)
+            ctx.attempt(c13.rule5_finisher, ctx, fl)
         with ctx.shared({'C01.1': 'C12.8'}, keep=lambda k: 'detachstate' in k):
-            c01.rule1_attr(ctx, fl)
+            ctx.attempt(c01.rule1_attr, ctx, fl)
 
 
 SCHED = 'src/myth_sched_func.h'
